@@ -195,6 +195,13 @@ def kinds_of(src: str) -> str:
     return ",".join(tags[:4])
 
 
+_TRANSLATES = re.compile(r"\{%-?\s*translate\b|\|\s*(t|gettext|ngettext|pgettext|npgettext)\b")
+
+
+def uses_translation(templates: dict) -> bool:
+    return any(_TRANSLATES.search(src) for src in templates.values())
+
+
 def judge(rec, opts):
     from liquid2 import DictLoader
     patch_nodes()
@@ -266,7 +273,10 @@ def judge(rec, opts):
         looked = {str(n) for n in LOOKUPS}          # ({{ [1] }} asks the namespace for the key 1)
         missed = sorted(n for n in looked if n not in known_vars and written(n))
         if missed:
-            out.append((f"variable-not-reported:{where}", {"templates": templates, "looked_up": missed, "reported": sorted(known_vars), "mode": mode}))
+            # the listed known finding: the catalog the translate tag and the translation filters read from the variable
+            # `translations` (nothing else is excused: any other name in `missed` keeps the ordinary signature)
+            site = "translations-catalog" if missed == ["translations"] and uses_translation(templates) else where
+            out.append((f"variable-not-reported:{site}", {"templates": templates, "looked_up": missed, "reported": sorted(known_vars), "mode": mode}))
         notglobal = sorted(n for n in looked if n in known_vars and n not in a.globals and n not in a.locals)
         if notglobal:
             out.append((f"global-not-reported:{where}", {"templates": templates, "looked_up": notglobal, "globals": sorted(a.globals),
